@@ -96,8 +96,12 @@ class C04(Prop):
                    'Twisted: neither); failfast on a 2.6 / Twisted style result is a plain instance attribute assigned by the harness on that object, '
                    'either at once or after the whole graph is built (never in the middle of a history); such results only occur behind an '
                    'ExtendedToOriginalDecorator; per-result clauses (leaf-*, stop-reaches), verdict, summary and not-earlier are stated for graphs '
-                   'over testtools\' own results only (old-flavour results are never reset by startTestRun); the history assigns failfast only on '
+                   'over testtools\' own results only; not-earlier also where shouldStop is the ExtendedToOriginalDecorator\'s own flag (Twisted-style targets), '
+                   'but not over 2.6 / 2.7 style results, which own their shouldStop and are never told that a new run begins; the history assigns failfast only on '
                    'the outer object',
+                   'tests that terminate the interpreter (sys.exit / SystemExit inside a test: the exception propagates through testtools.run by design and becomes '
+                   'the exit status), sub-tests (addSubTest), suites whose run() returns None and messages with lone surrogates are outside the alphabets of the '
+                   'exit-status / summary model (six outcomes of well-behaved TestCases)',
                    'suites stop dispatching: modelled as "no further test after shouldStop" and checked through testtools.run -f on real TestCases']
 
     manifest = {
